@@ -118,7 +118,7 @@ fn strs(v: &Value) -> Vec<String> {
 
 fn head(kind: &str) -> Value {
 	json!({"kind": kind, "chain": "", "inst": "", "layer": 0, "lname": "", "leaf": 0, "ln": "", "m": "", "a": "",
-		"mat": "ok", "len": 0, "hex": "", "walk": [], "muts": []})
+		"mat": "ok", "len": 0, "hex": "", "walk": [], "muts": [], "maxsize": 0, "minsize": 0})
 }
 fn sample_hex(b: &[u8]) -> String {
 	hex(&b[..b.len().min(96)])
@@ -515,6 +515,8 @@ fn worker(args: &Args, w: usize) {
 		let first_run = if i == args.resume.0 { args.resume.1 } else { 0 };
 		if first_run == 0 {
 			let mut h = work.header.clone();
+			h["maxsize"] = json!(ctx.mat.max_size);
+			h["minsize"] = json!(grin_wallet_libwallet::slatepack::min_size());
 			h["eps"] = json!(work.runs.iter().map(|r| r.0.clone()).collect::<Vec<_>>());
 			if let Some((_, b)) = work.runs.first() {
 				if b.len() <= 65536 {
